@@ -198,5 +198,8 @@ func c08(r *h.Result, rng *h.Rng, tier string, replay string) error {
 	if err := c08SemX(r, rng.Fork(), ns); err != nil {
 		return err
 	}
+	if err := c08Order(r, rng.Fork(), 40); err != nil {
+		return err
+	}
 	return nil
 }
